@@ -155,6 +155,30 @@ func TestC08(t *testing.T) {
 		vcore.E.Class("clock_scenario")
 		report(t, c, r)
 	}
+	// a busy window: several hundred requests are retained at once (keep-alives of many peers, a burst of session traffic)
+	// when a state-changing request arrives; it must be answered, or leave no trace, like any other - and so must the next
+	for _, n := range []int{255, 300, 520} {
+		hb := func(peer int) sessmodel.Op { return sessmodel.Op{Op: stack.Op{Kind: "hb", Peer: peer, Sess: -1}} }
+		far := []stack.RuleOp{{Verb: "create", Kind: "FAR", ID: 1, Action: 2, HasAction: true}}
+		ops := []sessmodel.Op{{Op: stack.Op{Kind: "assoc", Peer: 0, Node: 0, Sess: -1}}, {Op: stack.Op{Kind: "assoc", Peer: 1, Node: 1, Sess: -1}}}
+		for i := 0; i < n; i++ {
+			ops = append(ops, hb(i%2))
+		}
+		ops = append(ops,
+			sessmodel.Op{Op: stack.Op{Kind: "est", Peer: 0, Node: 0, Sess: -1, CP: 0x31, Rules: far}},
+			sessmodel.Op{Op: stack.Op{Kind: "est", Peer: 1, Node: 1, Sess: -1, CP: 0x32, Rules: far}},
+			sessmodel.Op{Op: stack.Op{Kind: "mod", Peer: 0, Sess: 0, Rules: []stack.RuleOp{{Verb: "update", Kind: "FAR", ID: 1, Action: 1, HasAction: true}}}},
+			sessmodel.Op{Op: stack.Op{Kind: "del", Peer: 1, Sess: 1}},
+			hb(0))
+		c := sessmodel.Case{Ops: ops}
+		r := sessmodel.Run(c, or)
+		account(c, r)
+		vcore.E.Class("hundreds_of_requests_retained_at_once")
+		if r.V != nil {
+			// reported as found: minimising a history of hundreds of steps is not worth its time
+			vcore.Report(t, r.V, c)
+		}
+	}
 	g := cfg()
 	vcore.Check(t, vcore.N(1200, 12000), func(rt *rapid.T) {
 		g := g
